@@ -13,14 +13,17 @@ META = ".+*?()|[]{}^$\\"
 
 # ---------------------------------------------------------------- trees
 def t_chr(c): return ("chr", ord(c))
+PROGRAM_MODE = [False]      # inside DSL source the lexer takes only some backslash pairs (\. yes, \( \* \| \? no) and no 4-byte characters
+
+
 def gen_atom(rng, ci):
     x = rng.random()
     if x < 0.55:
         return ("chr", ord(rng.choice("abcks" if not ci else "abcksAK")))
     if x < 0.62:
-        return ("chr", ord(rng.choice(".+*?(|[$")))
+        return ("chr", ord(rng.choice(".+*?(|[$" if not PROGRAM_MODE[0] else ".")))
     if x < 0.68 and not ci:
-        return ("chr", rng.choice([0xE9, 0x20AC, 0x1F600]))
+        return ("chr", rng.choice([0xE9, 0x20AC, 0x1F600] if not PROGRAM_MODE[0] else [0xE9, 0x20AC]))
     if x < 0.78:
         return ("any",)
     neg = rng.random() < 0.3
@@ -238,13 +241,13 @@ def run_part(ctx, bad, mlr_rows, P):
     """returns (terms, meta) for RegexHarness.rchk"""
     rng = ctx.rng
     quick = ctx.tier == "quick"
-    N = 260 if quick else 5000
+    N = 200 if quick else 5000
     terms, meta = [], []
     BS = 'gssub(%s, "@", "\\\\")'          # '@' stands for the backslash in TSV data
     rows = []
     for i in range(N):
         ci = rng.random() < 0.25
-        t, ng = gen_regex_tree(rng, ci, allow_nullable_body=bool(os.environ.get("C15RX_NULLABLE")))
+        t, ng = gen_regex_tree(rng, ci, allow_nullable_body=(i % 3 == 0))
         pat = show(t)
         form = miller_form(rng, pat, ci)
         s = gen_subject(rng)
@@ -297,10 +300,14 @@ def run_part(ctx, bad, mlr_rows, P):
     ctx.dist("regex_model_rows", len(rows))
 
     # programs: one mlr process each
-    nprog = 50 if quick else 600
+    nprog = 40 if quick else 600
     jobs = []
     for k in range(nprog):
-        stmts = gen_prog(rng)
+        PROGRAM_MODE[0] = True
+        try:
+            stmts = gen_prog(rng)
+        finally:
+            PROGRAM_MODE[0] = False
         defs = []
         body = prog_dsl(stmts, defs, "g")
         jobs.append((stmts, b" ".join(defs) + b" end{" + body + b"}"))
